@@ -30,27 +30,41 @@ def main():
     if os.path.exists(mp):
         matrix = json.load(open(mp))
     head = subprocess.run(['git', '-C', '/repo', 'rev-parse', '--short', 'HEAD'], capture_output=True, text=True).stdout.strip()
+    names = []
     for name in sorted(os.listdir(SEEDED)):
         d = os.path.join(SEEDED, name)
         if not os.path.isdir(d) or not os.path.exists(os.path.join(d, 'patch.diff')):
             continue
         if only and name not in only:
             continue
+        names.append(name)
+
+    def one(name):
+        d = os.path.join(SEEDED, name)
         prop = name.split('-')[0]
         scratch = tempfile.mkdtemp(prefix='seedm-')
         try:
             subprocess.run('git -C /repo archive HEAD | tar -x -C %s' % scratch, shell=True, check=True)
             r = subprocess.run(['patch', '-p1', '-s', '-i', os.path.join(d, 'patch.diff')], cwd=scratch, capture_output=True, text=True)
             if r.returncode != 0:
-                matrix[name] = {'applies_on': None, 'error': 'patch does not apply on ' + head}
-                continue
+                print(name, 'DOES-NOT-APPLY', flush=True)
+                return name, {'applies_on': None, 'error': 'patch does not apply on ' + head}
             res = run_checks(scratch, RELATED.get(prop, [prop]))
         finally:
             shutil.rmtree(scratch, ignore_errors=True)
         caught = [p for p, v in res.items() if v['exit'] == 1]
-        matrix[name] = {'applies_on': head, 'property': prop, 'checks': res, 'caught_by': caught,
-                        'own_check_verdict': {0: 'MISSED', 1: 'CAUGHT', 2: 'ANALYSIS-BROKEN'}.get(res[prop]['exit'], '?')}
-        print(name, matrix[name]['own_check_verdict'], 'caught by', caught)
+        row = {'applies_on': head, 'property': prop, 'checks': res, 'caught_by': caught,
+               'own_check_verdict': {0: 'MISSED', 1: 'CAUGHT', 2: 'ANALYSIS-BROKEN'}.get(res[prop]['exit'], '?')}
+        print(name, row['own_check_verdict'], 'caught by', caught, flush=True)
+        return name, row
+
+    from concurrent.futures import ThreadPoolExecutor
+    with ThreadPoolExecutor(int(os.environ.get('SEEDMATRIX_JOBS', '4'))) as ex:
+        for name, row in ex.map(one, names):
+            matrix[name] = row
+    for k in list(matrix):
+        if not os.path.isdir(os.path.join(SEEDED, k)):
+            del matrix[k]
     json.dump(matrix, open(mp, 'w'), indent=1)
 
 
